@@ -40,6 +40,8 @@ def grids(tier):
         ({"b": 2, "a": 1, "c": 2}, ()),
         ({"b": 3, "a": 2}, ("b",)),
         ({"b": 2, "a": 2, "c": 2}, ("c",)),
+        ({"z": 3}, ()),                      # values 0, 1, 2 (0 is falsy)
+        ({"z": 2, "a": 2}, ("z",)),
         ({"d": 3}, ()),                      # tiny distinct floats
         ({"e": 3, "d": 2}, ("e",)),          # large close floats x tiny floats
     ]
@@ -60,6 +62,7 @@ def configs(tier):
             # rep = 1..rep_max-1, so 2^(rep_max-1) masks cover all Boolean functions
             fam = [("rep", m) for m in range(2 ** (rep_max - 1))]
             fam += [("sum", s) for s in ((5,) if rep_max == 1 else (2, 3, 4, 5))]
+            fam += [("default", 0)]          # the library's own _keep_going
             if rep_max >= 2:
                 # the same predicates returning numpy booleans (truthy/falsy, not the singletons)
                 fam += [("rep_np", 2 ** (rep_max - 1) - 1), ("rep_np", 1), ("sum_np", 3)]
@@ -70,15 +73,17 @@ def configs(tier):
                 if lengths and nvar <= 3 and rep_max <= 2 and (
                         ks in (("rep", 2 ** (rep_max - 1) - 1), ("sum", 3), ("sum", 5)) or tier == "thorough"):
                     # second simulate() after the grid / the limit was changed on the same runner
-                    modes += ["twice_setitem", "twice_add", "twice_rep_max"]
+                    modes += ["twice_setitem", "twice_add", "twice_rep_max", "twice_two_runners"]
                 if lengths and rep_max in (2, 3):
                     modes += ["single:%d" % i for i in range(nvar)]
+                    if ks[0] in ("default", "sum"):
+                        modes += ["singlestr:%d" % i for i in (0, nvar - 1)]    # index given as a string
                 for mode in modes:
                     calls = nvar * rep_max * (2 if mode.startswith("twice") else 1)
                     if tier == "thorough":
                         bound = 4 if calls <= 8 else (3 if calls <= 16 else 2)
                     else:
-                        bound = 3 if calls <= 6 else (2 if calls <= 12 else 1)
+                        bound = 3 if calls <= 5 else (2 if calls <= 10 else 1)
                     out.append(dict(grid=gi, lengths=lengths, as_array=list(arr), rep_max=rep_max,
                                     keep=list(ks), mode=mode, bound=bound))
     return out
@@ -103,8 +108,10 @@ def execute(cfg, ctx, chk, lookups=True):
     fs = None
     runs = 2 if mode.startswith("twice") else 1
     single = int(mode.split(":")[1]) if mode.startswith("single") else None
+    single_arg = (str(single) if mode.startswith("singlestr") else single)
     exc = None
     boundaries = []
+    snap_a = runner_a = None
     # grid / limit used by the SECOND simulate() of the "twice_*" modes
     pd2, rep_max2 = second_run_setup(pd, unpacked, rep_max, mode)
     try:
@@ -116,15 +123,24 @@ def execute(cfg, ctx, chk, lookups=True):
                 runner.partial_results_folder = os.path.join(fs.root, "partial")
             try:
                 for run_i in range(runs):
-                    if run_i == 1:
+                    if run_i == 1 and mode == "twice_two_runners":
+                        # a SECOND live runner object with another grid and limit; the first one must
+                        # not be affected by it (class-level / module-level state)
+                        runner_a = runner
+                        snap_a = _snapshot(runner_a)
+                        runner = RM.ScriptedRunner(pd2, unpacked, rep_max2, keep, answer)
+                    elif run_i == 1:
                         change_between_runs(runner, mode, pd2, unpacked)
                     if single is None:
                         runner.simulate()
                     else:
-                        runner.simulate(single)
+                        runner.simulate(single_arg)
                     boundaries.append(len(runner.call_log))
             except Exception as e:  # noqa
                 exc = e
+            if snap_a is not None and exc is None and _snapshot(runner_a) != snap_a:
+                chk.fail(("two_live_runners", "first_runner_changed_by_second"),
+                         dict(cfg=cfg, choices=list(ctx.choices)), observed=_snapshot(runner_a), expected=snap_a)
         # ---------------- reference -----------------
         stream = list(ctx.choices)
         pos = [0]
@@ -167,12 +183,13 @@ def execute(cfg, ctx, chk, lookups=True):
                      observed="%s: %s" % (type(exc).__name__, exc), expected="simulate() completes")
             return ("exception", type(exc).__name__)
         m = mode.split(":")[0]
-        if runner.call_log != ref_log:
-            k = next((i for i, (x, y) in enumerate(zip(runner.call_log, ref_log)) if x != y),
-                     min(len(runner.call_log), len(ref_log)))
+        full_log = (runner_a.call_log if snap_a is not None else []) + runner.call_log
+        if full_log != ref_log:
+            k = next((i for i, (x, y) in enumerate(zip(full_log, ref_log)) if x != y),
+                     min(len(full_log), len(ref_log)))
             chk.fail(("call_log", m, how), case,
                      observed="%d calls; first difference at call %d: %r" % (
-                         len(runner.call_log), k, runner.call_log[k:k + 1]),
+                         len(full_log), k, full_log[k:k + 1]),
                      expected="%d calls; %r" % (len(ref_log), ref_log[k:k + 1]))
             return ("call_log_mismatch",)
         want_reps = [rv.rep for rv in rvs]
@@ -214,6 +231,12 @@ def execute(cfg, ctx, chk, lookups=True):
             fs.cleanup()
 
 
+def _snapshot(runner):
+    res = runner.results
+    return (repr(runner.runned_reps), [(r.get_result(), r.num_updates) for r in res["v"]],
+            [r.get_result() for r in res["num_skipped_reps"]], sorted(runner.params.parameters.keys()))
+
+
 def second_run_setup(pd, unpacked, rep_max, mode):
     """the parameters of the second simulate() on the same runner"""
     pd2 = dict(pd)
@@ -225,8 +248,12 @@ def second_run_setup(pd, unpacked, rep_max, mode):
         fresh = (vals[0] + "q") if isinstance(vals[0], str) else (max(vals) * 7 + 1)
         new = vals[::-1] + [fresh]
         pd2[n] = np.array(new) if isinstance(pd[n], np.ndarray) else new
-    if mode == "twice_rep_max":
+    if mode in ("twice_rep_max", "twice_two_runners"):
         rep_max2 = rep_max + 1
+    if mode == "twice_two_runners" and unpacked:
+        n = sorted(unpacked)[0]
+        vals = list(pd[n])
+        pd2[n] = (vals + [(vals[0] + "q") if isinstance(vals[0], str) else (max(vals) * 7 + 1)])[1:]
     return pd2, rep_max2
 
 
